@@ -2,7 +2,10 @@
 """Writes MANIFEST.json from the per-property metadata in harness/sfv/props/*.py and tools/manifest_meta.json."""
 import json, os, sys
 VERIF = os.path.dirname(os.path.dirname(os.path.abspath(__file__)))
-meta = json.load(open(os.path.join(VERIF, 'tools', 'manifest_meta.json')))
+meta = {}
+for fn in sorted(os.listdir(os.path.join(VERIF, 'tools', 'meta'))):
+    if fn.endswith('.json'):
+        meta[fn[:-5]] = json.load(open(os.path.join(VERIF, 'tools', 'meta', fn)))
 props = [json.loads(l)['id'] for l in open(os.path.join(VERIF, 'properties.jsonl'))]
 checks, na = [], []
 for pid in props:
@@ -23,7 +26,7 @@ for pid in props:
     })
 man = {
     'version': 1,
-    'setup_cmd': 'cd lean && lake build SFModel SFModel.Drv.All',
+    'setup_cmd': 'python3 tools/gen_drv_all.py && /venv/bin/python tools/py2lean.py; cd lean && lake build SFModel',
     'hooks': {
         'guard': 'STATIC_FRAME_VERIF',
         'enable': 'none needed: every observation is made by attribute access from outside; no source hooks',
